@@ -177,6 +177,8 @@ fn tmap() -> HashMap<TypeId, usize> {
     for t in 0..NTYPES {
         m.insert(with_type!(t, T, TypeId::of::<T>()), t);
     }
+    m.insert(TypeId::of::<u64>(), 120);
+    m.insert(TypeId::of::<u32>(), 121);
     m
 }
 
@@ -267,7 +269,7 @@ impl Containers {
     ) -> (String, String, Vec<Entity>, Vec<String>) {
         // every other op takes the single-component / dynamic flavour of the API where there is one
         let alt = opnum % 2 == 1;
-        let single = |k: usize| matches!(k, 1..=9 | 26 | 28);
+        let single = |k: usize| matches!(k, 1..=9 | 26 | 28 | 34);
         let mut handles = Vec::new();
         let mut notes = Vec::new();
         let mut lhs = op.show();
